@@ -6,7 +6,72 @@ open Conv
 type termd = { kind : int; tid : string; tname : string; prec : int; assoc : int; data : string }
 type rule = { lhs : string; rhs : (int * string) list; pg : bool; rprec : int; ctx : bool; default : bool }
 
+(* optional "--real <p.real>": take grammar_info, item sets, table and lexer automaton from the dump of the REAL constructor,
+   so that only the driver mirror is exercised (properties about the driver are then not disturbed by changes elsewhere) *)
+type realdump = { mutable r_gi : (int * int * int * int) option; mutable r_rs : (int * symbol list) list; mutable r_ri : rule_info list;
+                  mutable r_sl : (nat * nat) list; mutable r_tp : (int * int) list; mutable r_rp : (int * int * int) list;
+                  mutable r_sts : item list list; mutable r_rows : entry list list; mutable r_dfa : dstate list; mutable r_nodfa : bool }
+let real_dumps : (string, realdump) Hashtbl.t = Hashtbl.create 16
+let load_real path =
+  let ic = open_in_bin path in
+  let cur = ref None in
+  let toks body = List.filter (fun x -> x <> "") (String.split_on_char ' ' body) in
+  let triple t = match String.split_on_char ',' t with [a; b; c] -> (int_of_string a, int_of_string b, int_of_string c) | _ -> failwith "triple" in
+  let pair t = match String.split_on_char ',' t with [a; b] -> (int_of_string a, int_of_string b) | _ -> failwith "pair" in
+  let starts l p = String.length l >= String.length p && String.sub l 0 (String.length p) = p in
+  let rest l p = String.sub l (String.length p) (String.length l - String.length p) in
+  let in_diag = ref false in
+  (try while true do
+    let l = input_line ic in
+    if starts l "CASE " then begin
+      let d = { r_gi = None; r_rs = []; r_ri = []; r_sl = []; r_tp = []; r_rp = []; r_sts = []; r_rows = []; r_dfa = []; r_nodfa = false } in
+      Hashtbl.replace real_dumps (rest l "CASE ") d; cur := Some d; in_diag := false end
+    else match !cur with
+    | None -> ()
+    | Some d ->
+      if starts l "DIAG " then in_diag := true
+      else if l = "ENDDIAG" then in_diag := false
+      else if !in_diag then ()
+      else if starts l "GI " then (match List.map int_of_string (toks (rest l "GI ")) with [a; b; c; e] -> d.r_gi <- Some (a, b, c, e) | _ -> ())
+      else if starts l "RS " then (match toks (rest l "RS ") with
+             | r :: syms -> d.r_rs <- (int_of_string r, List.map (fun x -> let i = nat_of_int (int_of_string (String.sub x 1 (String.length x - 1))) in if x.[0] = 't' then T i else NT i) syms) :: d.r_rs
+             | [] -> ())
+      else if starts l "RI" && not (starts l "RIG") then d.r_ri <- List.map (fun t -> let (a, b, c) = triple t in { ri_l = nat_of_int a; ri_r = nat_of_int b; ri_n = nat_of_int c }) (toks (rest l "RI"))
+      else if starts l "SL" then d.r_sl <- List.map (fun t -> let (a, b) = pair t in (nat_of_int a, nat_of_int b)) (toks (rest l "SL"))
+      else if starts l "TP" then d.r_tp <- List.map pair (toks (rest l "TP"))
+      else if starts l "RP" then d.r_rp <- List.map triple (toks (rest l "RP"))
+      else if l = "DFA fail" then d.r_nodfa <- true
+      else if starts l "ST " then begin
+        match toks (rest l "ST ") with
+        | _ :: fl :: "r" :: a :: b :: c :: e :: "m" :: more ->
+            let rec split acc = function "t" :: tl -> (List.rev acc, tl) | x :: tl -> split (x :: acc) tl | [] -> (List.rev acc, []) in
+            let (ms, ts) = split [] more in
+            let tr = Array.make 256 None in
+            List.iter (fun t -> match String.split_on_char '>' t with
+                        | [rng; q] -> (match String.split_on_char '-' rng with
+                                       | [x; y] -> for k = int_of_string x to int_of_string y do tr.(k) <- Some (nat_of_int (int_of_string q)) done
+                                       | _ -> failwith "range")
+                        | _ -> failwith "trans") ts;
+            let recs = List.filter (fun x -> x >= 0) (List.map int_of_string [a; b; c; e]) in
+            d.r_dfa <- { d_start = fl.[0] = '1'; d_end = fl.[1] = '1'; d_unreach = fl.[2] = '1'; d_rec = List.map nat_of_int recs;
+                         d_trans = Array.to_list tr; d_merged = List.map (fun x -> nat_of_int (int_of_string x)) ms } :: d.r_dfa
+        | _ -> failwith ("bad ST line: " ^ l) end
+      else if String.length l > 1 && (l.[0] = 'S' || l.[0] = 'R') && (match String.index_opt l ':' with Some i -> i > 1 && (try ignore (int_of_string (String.sub l 1 (i - 1))); true with _ -> false) | None -> false) then begin
+        let i = String.index l ':' in
+        let tk = toks (String.sub l (i + 1) (String.length l - i - 1)) in
+        if l.[0] = 'S' then
+          d.r_sts <- List.map (fun t -> match String.split_on_char '.' t with
+                        | [a; b; c] -> { it_r = nat_of_int (int_of_string a); it_d = nat_of_int (int_of_string b); it_t = nat_of_int (int_of_string c) }
+                        | _ -> failwith "bad item") tk :: d.r_sts
+        else
+          d.r_rows <- List.map (fun t -> let (k, a, f) = triple t in
+                        { e_kind = (match k with 0 -> KError | 1 -> KSuccess | 2 -> KShift | 3 -> KShiftErr | 4 -> KReduce | _ -> KRR);
+                          e_arg = (if a < 0 then None else Some (nat_of_int a)); e_sr = (f = 1) }) tk :: d.r_rows end
+  done with End_of_file -> ()); close_in ic
+
 let () =
+  let use_real = Array.length Sys.argv > 3 && Sys.argv.(2) = "--real" in
+  if use_real then load_real Sys.argv.(3);
   let ic = open_in Sys.argv.(1) in
   let next = make_reader ic in
   let tok () = match next () with Some t -> t | None -> raise End_of_file in
@@ -24,7 +89,18 @@ let () =
                rg_rules = List.map (fun r -> { rr_l = bytes_of_string r.lhs;
                                                rr_r = List.map (fun (k, s) -> match k with 0 -> RNterm (bytes_of_string s) | 1 -> RTerm (bytes_of_string s) | _ -> RTerm id_error) r.rhs;
                                                rr_prec = if r.pg then Some (z_of_int r.rprec) else None }) rules } in
-    (match analyze rg with
+    let assoc_i = function 1 -> Ltor | 2 -> Rtol | _ -> NoAssoc in
+    let real = if use_real then Hashtbl.find_opt real_dumps !id else None in
+    let analysed = match real with
+      | Some { r_gi = Some (tc, ntc, rc, me); r_rs; r_ri; r_sl; r_tp; r_rp; _ } ->
+          Some { term_count = nat_of_int tc; nterm_count = nat_of_int ntc; rule_count = nat_of_int rc; max_elems = nat_of_int me;
+                 right_sides = List.map snd (List.sort compare r_rs); rule_infos = r_ri; slices = r_sl;
+                 term_prec = List.map (fun (p, _) -> z_of_int p) r_tp; term_assoc = List.map (fun (_, a) -> assoc_i a) r_tp;
+                 rule_prec = List.map (fun (p, _, _) -> z_of_int p) r_rp; rule_assoc = List.map (fun (_, a, _) -> assoc_i a) r_rp;
+                 rule_last_term = List.map (fun (_, _, l) -> if l < 0 then None else Some (nat_of_int l)) r_rp }
+      | Some _ -> None
+      | None -> if use_real then None else analyze rg in
+    (match analysed with
      | None -> print_string "ANALYZE fail\n"
      | Some g ->
         let tc = int_of_nat g.term_count and ntc = int_of_nat g.nterm_count and rc = int_of_nat g.rule_count in
@@ -40,11 +116,16 @@ let () =
                       | 0 -> Some (TChar (nat_of_int (Char.code t.data.[0]))) | 1 -> Some (TString (bytes_of_string t.data))
                       | _ -> (match parse_pattern_with (fst gt) (snd gt) (bytes_of_string t.data) with Some r -> Some (TRegex r) | None -> None)) terms in
         let lim = default_limits g in
-        let sm = if List.mem None tdata then None else create_lexer (List.map (function Some x -> x | None -> assert false) tdata) in
+        let sm = match real with
+          | Some d -> if d.r_nodfa || d.r_dfa = [] then None else Some (List.rev d.r_dfa)
+          | None -> if List.mem None tdata then None else create_lexer (List.map (function Some x -> x | None -> assert false) tdata) in
         let empties = List.length (List.filter (fun r -> r.rhs = []) rules) in
         Printf.printf "CAPS %d %d %d %d\n" (int_of_nat lim.state_cap) (int_of_nat lim.sit_cap) (match sm with Some s -> List.length s | None -> -1) empties;
         let nm = { tn = Array.of_list (List.map (fun t -> t.tname) terms @ ["<eof>"; "<error_recovery_token>"]); ntn = Array.of_list (ntl @ ["##"]) } in
-        (match gen_with g lim with
+        let generated = match real with
+          | Some d -> if d.r_rows = [] then Inr GenOutOfFuel else Inl (List.map (fun its -> { st_all = its; st_kernel = [] }) (List.rev d.r_sts), List.rev d.r_rows)
+          | None -> gen_with g lim in
+        (match generated with
          | Inr _ -> print_string "GEN throw\n"
          | Inl (sts, tb) ->
             Printf.printf "STATES %d\n" (List.length sts);
